@@ -111,7 +111,7 @@ func C18(tier string) {
 	if tier == "thorough" {
 		tails = append(tails, 2, 3, 8191, 8192, 8193, 65535, 65537, 1<<30)
 	}
-	r.Rule(fmt.Sprintf("well-formed PNG/JPEG/WebP files built from descriptions (no ICC; ICC before / after / between >64 KiB of other ancillary data; JPEG chunks in every order and split around SOF; iCCP name with a Latin-1 byte) whose pixel payload is a virtual zero tail of %v bytes produced by the counting source; each through the specific loader and autometa under: all at once, uniform 1/7/4096-byte delivery with and without EOF piggy-backed, and every reader-answer sequence with <= 2 deviations (thorough <= 3); every ordered pair of those files loaded one after the other in one process; the repository images likewise (need = what a loader given only that prefix still reports identically, found by bisection); states = choice points, transitions = answers taken", tails))
+	r.Rule(fmt.Sprintf("well-formed PNG/JPEG/WebP files built from descriptions (no ICC; ICC before / after / between >64 KiB of other ancillary data; JPEG chunks in every order and split around SOF; iCCP name with a Latin-1 byte) whose pixel payload is a virtual zero tail of %v bytes produced by the counting source; each through the specific loader and autometa under: all at once, uniform 1/7/4096-byte delivery with and without EOF piggy-backed, and every reader-answer sequence with <= 2 deviations (thorough <= 3); every ordered pair of those files loaded one after the other in one process, the first one once and eight times in a row (state learnt from a batch must not make the next load read more); the repository images likewise (need = what a loader given only that prefix still reports identically, found by bisection); states = choice points, transitions = answers taken", tails))
 	r.Assume("need(file) comes from the generator: end of the iCCP chunk or of the IDAT chunk header (PNG); end of the later of SOF / last ICC chunk, else of the SOS header (JPEG); byte 30 / 25 / end of ICCP data (WebP)")
 	bound := 2
 	if tier == "thorough" {
@@ -211,17 +211,21 @@ func C18(tier string) {
 						if auto {
 							la, lb = &loaders[3], &loaders[3]
 						}
-						_, _ = load(la, &envx.Src{Data: files[i].Data, Tail: 1 << 20, Uniform: 1 << 30})
-						src := &envx.Src{Data: files[j].Data, Tail: 1 << 20, Uniform: 1 << 30, MaxDeliver: int64(files[j].Info.Need) + 1<<20}
-						o, _ := load(lb, src)
-						execs += 2
-						need := int64(files[j].Info.Need)
-						if src.Delivered > need+65536 {
-							r.Violate("over-read-after/"+lb.Name, fmt.Sprintf("%s.Load of %s right after loading %s: pulled %d bytes; the last needed structure ends at %d", lb.Name, files[j].Name, files[i].Name, src.Delivered, need),
-								map[string]interface{}{"first": files[i].Name, "second": files[j].Name, "delivered": src.Delivered, "need": need}, nil)
+						for _, warm := range []int{1, 8} {
+							for w := 0; w < warm; w++ {
+								_, _ = load(la, &envx.Src{Data: files[i].Data, Tail: 1 << 20, Uniform: 1 << 30})
+							}
+							src := &envx.Src{Data: files[j].Data, Tail: 1 << 20, Uniform: 1 << 30, MaxDeliver: int64(files[j].Info.Need) + 1<<20}
+							o, _ := load(lb, src)
+							execs += 2
+							need := int64(files[j].Info.Need)
+							if src.Delivered > need+65536 {
+								r.Violate("over-read-after/"+lb.Name, fmt.Sprintf("%s.Load of %s right after loading %s: pulled %d bytes; the last needed structure ends at %d", lb.Name, files[j].Name, files[i].Name, src.Delivered, need),
+									map[string]interface{}{"first": files[i].Name, "second": files[j].Name, "delivered": src.Delivered, "need": need}, nil)
+							}
+							cc := files[j]
+							checkICCOutcome(r, &cc, lb, o, "expected-after/"+lb.Name)
 						}
-						cc := files[j]
-						checkICCOutcome(r, &cc, lb, o, "expected-after/"+lb.Name)
 					}
 				}
 			}
